@@ -72,6 +72,21 @@ impl Property for C10 {
                         b_text = format!("{} {} {} {} {}", d(2 + (ws[0] % 7) as u64), v.linking[idx(ws[1], v.linking.len())], d(2 + (ws[1] % 7) as u64), link, d(2 + (ws[2] % 7) as u64));
                         th_bits = 10f64.to_bits();
                     }
+                    3 => {
+                        // the words the language's ambiguity rules look at, placed right across the separator: the last
+                        // word of A is one the rule keys on, the first word of B is the ambiguous one
+                        match l2.as_str() {
+                            "fr" => {
+                                a_text = format!("{} {}", a_text.trim_end(), ["le", "du", "un", "l'", "vingt et un"][ws[0] as usize % 5]);
+                                b_text = format!("neuf {}", b_text.trim_start());
+                            }
+                            "en" => {
+                                a_text = format!("{} {}", a_text.trim_end(), v.classes[idx(ws[0], 3)][idx(ws[1], v.classes[idx(ws[0], 3)].len())]);
+                                b_text = format!("o {}", b_text.trim_start());
+                            }
+                            _ => {}
+                        }
+                    }
                     _ => {}
                 }
                 Case { lang: l2.clone(), shape: "asb".into(), a_text, sep, b_text, th_bits, a: 0, b: 0, ca: vec![], cb: vec![] }
